@@ -36,7 +36,8 @@ NSHARDS = 16
 
 def plan(tier, seed):
     n = 3000 if tier == "quick" else 150000
-    return [{"kind": "program", "start": p * (n // NSHARDS), "count": n // NSHARDS} for p in range(NSHARDS)]
+    return [{"kind": "program", "start": p * (n // NSHARDS), "count": n // NSHARDS} for p in range(NSHARDS)] + \
+        [{"kind": "suite"}]
 
 
 class Guard:
@@ -237,6 +238,10 @@ def run_case(ctx, kind_, idx):
 
 
 def run(ctx, spec):
+    if spec["kind"] == "suite":     # the repository's own tests with the Weaver state monitor attached
+        from .. import suite
+        suite.run_suite(ctx, ["weaver_invariant"])
+        return
     Slot.ctx = ctx
     weaver_inv.install()
     for idx in range(spec["start"], spec["start"] + spec["count"]):
